@@ -1,0 +1,17 @@
+//go:build verif
+
+package ruleguard
+
+import (
+	"go/types"
+
+	"github.com/quasilyte/go-ruleguard/internal/xtypes"
+)
+
+// VerifXtypesIdentical exposes internal/xtypes.Identical to the verification harness.
+func VerifXtypesIdentical(x, y types.Type) bool { return xtypes.Identical(x, y) }
+
+// VerifXtypesImplements exposes internal/xtypes.Implements to the verification harness.
+func VerifXtypesImplements(v types.Type, iface *types.Interface) bool {
+	return xtypes.Implements(v, iface)
+}
